@@ -387,6 +387,13 @@ func cmdCheck(args []string) int {
 				MaxVals:      h.tiered("maxvals", stage, 0),
 				Verbose:      flags["v"] != "",
 			}
+			opts.ValidateSamples = 40
+			if stage == "thorough" {
+				opts.ValidateSamples = 200
+			}
+			if h.KV["native"] == "0" || os.Getenv("VERIF_NOVALIDATE") != "" {
+				opts.ValidateSamples = 0
+			}
 			if ts := h.tiered("timeout", stage, 0); ts > 0 {
 				opts.Deadline = time.Now().Add(time.Duration(ts) * time.Second)
 			}
@@ -524,13 +531,18 @@ func conclude(prop, tier string, seed int, prog *gosym.Program, results []*check
 			totalViol++
 			violLines = append(violLines, fmt.Sprintf("VIOLATION property=%s replay=%s harness=%s label=%q confirmed=%s", prop, path, h.Func, v.Label, how))
 		}
-		if n, err := validateSamples(prog, h, r); err != nil {
-			inconclusive = append(inconclusive, h.Func+": TRANSLATOR-VALIDATION "+err.Error())
-		} else {
-			validated += n
-		}
 		hinfo["violations"] = len(rep.Violations)
 		perHarness = append(perHarness, hinfo)
+	}
+	if os.Getenv("VERIF_NOVALIDATE") == "" {
+		n, probs := validateAll(results)
+		validated = n
+		for _, p := range probs {
+			inconclusive = append(inconclusive, "TRANSLATOR-VALIDATION "+p)
+		}
+		for _, m := range softMismatches {
+			notes = append(notes, "NOTE property="+prop+" translator validation: "+m)
+		}
 	}
 	for _, l := range notes {
 		fmt.Println(l)
@@ -575,7 +587,7 @@ func conclude(prop, tier string, seed int, prog *gosym.Program, results []*check
 		"states_meaning":      "distinct completed symbolic paths (each covers every input satisfying its path condition)",
 		"transitions_meaning": "decisions taken (branch / value / choice / schedule / select / clock)",
 		"functions_encoded":   fl, "harnesses": perHarness, "solver": solver,
-		"known_findings": len(knownLines), "inconclusive": inconclusive,
+		"known_findings": len(knownLines), "inconclusive": inconclusive, "validation_route_differences": softMismatches,
 		"engine_load_s": prog.LoadSeconds, "exhaustive": false,
 		"trusted_base": []string{"gosym SSA interpreter (/verif/engine)", "intrinsic models listed in DESIGN.md 3.5", "z3 4.8.12 / z3 5.1.0 / cvc5 1.0", "go/ssa v0.29.0"},
 	}
